@@ -78,7 +78,7 @@ seeded("c01-attach-wrong-parent-field", ["C01"], both("            self.__parent
                                                        "            self.__parent = self\n            # ATOMIC END\n            self._post_attach"), ["W3"])
 seeded("c01-deleter-clears-list-directly", ["C01"], both(
     "        for child in self.children:\n            child.parent = None\n",
-    "        for child in self.children:\n            child.parent = None\n        self.__children_or_empty.clear()\n"), ["W1"])
+    "        for child in self.children:\n            child.parent = None\n        self.__children_or_empty.clear()\n"), ["W7"])
 benign("c01-attach-by-concat", ["C01", "C02", "C16", "C03"], both(
     "            parentchildren.append(self)\n", "            parent.__children = parentchildren + [self]\n"))
 benign("c01-loopcheck-as-for-loop", ["C01", "C02", "C03"], both(
